@@ -18,7 +18,6 @@ import (
 
 const (
 	evidencePath = "/verif/evidence/C02.json"
-	nDesigned    = 6
 )
 
 // seeded universe numbers: the spec decodes them (UniAt); the harness only supplies numbers
@@ -32,23 +31,28 @@ func seededUnis(seed int64, salt int64, n int) []int {
 }
 
 func plans(c *core.Ctx) []Plan {
-	s := int(c.Seed%nDesigned+nDesigned) % nDesigned
+	s := int(c.Seed%60+60) % 60
+	full := 99 // ProcNet: no bound on the packets in flight when a keyper starts on a block
 	if !c.Thorough() {
 		// universe 6 (three blocks; keyper 1 syncs registration and log in one range: the witness of
-		// known finding D6) is always there; two more designed universes rotate with the seed
-		d1 := []int{1, 2, 3, 4, 5}[s%5]
-		d2 := []int{1, 2, 3, 4, 5}[(s+2)%5]
+		// known finding D6) is in every run; the other designed universes rotate with the seed.
+		// Universe 5 (two identity lists in flight at once: 3*10^5 states) is left to the bounded plan.
+		rot := []int{1, 2, 3, 4}
+		other := []int{1, 2, 3, 4, 5}
 		return []Plan{
-			{Name: "fifo-designed", Designed: []int{6, d1, d2}, NB: 4, MaxLoss: 1, Order: "fifo", Fetch: "before", Sample: 90, Workers: 4, TimeoutS: 300},
-			{Name: "fifo-seeded", UniIdx: seededUnis(c.Seed, 1, 2), NB: 4, MaxLoss: 1, Order: "fifo", Fetch: "before", Sample: 60, Workers: 4, TimeoutS: 300},
-			{Name: "any-small", Designed: []int{6}, UniIdx: seededUnis(c.Seed, 2, 2), NB: 3, MaxLoss: 1, Order: "any", Fetch: "before", Sample: 40, Workers: 3, TimeoutS: 300},
+			{Name: "fifo-full", Designed: []int{6, 8, rot[s%4]}, NB: 4, MaxLoss: 1, LossTotal: 3, ProcNet: full, Order: "fifo", Fetch: "before", Sample: 120, Workers: 4, TimeoutS: 300},
+			{Name: "any-p2", Designed: []int{6, 7, 8, other[(s+1)%5], other[(s+3)%5]}, NB: 4, MaxLoss: 1, LossTotal: 3, ProcNet: 2, Order: "any", Fetch: "before", Sample: 150, Workers: 4, TimeoutS: 300},
+			// seeded universes: variety of chain contents and keyper schedules; their size is not known in
+			// advance, so the keypers start on a block only when the network is drained (ProcNet 0)
+			{Name: "seq-seeded", UniIdx: seededUnis(c.Seed, 1, 12), NB: 4, MaxLoss: 1, LossTotal: 3, ProcNet: 0, Order: "fifo", Fetch: "before", Sample: 0, Workers: 3, TimeoutS: 240},
 		}
 	}
 	return []Plan{
-		{Name: "fifo-designed-fork", Designed: []int{1, 2, 3, 4, 5, 6}, NB: 4, MaxLoss: 1, Order: "fifo", AllowFork: true, Fetch: "before", Sample: 900, Workers: 4, TimeoutS: 2400},
-		{Name: "fifo-seeded", UniIdx: seededUnis(c.Seed, 1, 10), NB: 5, MaxLoss: 1, Order: "fifo", Fetch: "before", Sample: 600, Workers: 4, TimeoutS: 2400},
-		{Name: "any-designed", Designed: []int{1, 2, 3, 4, 6}, NB: 4, MaxLoss: 1, Order: "any", Fetch: "before", Sample: 600, Workers: 4, TimeoutS: 2400},
-		{Name: "any-seeded", UniIdx: seededUnis(c.Seed, 2, 6), NB: 4, MaxLoss: 1, Order: "any", Fetch: "before", Sample: 400, Workers: 4, TimeoutS: 2400},
+		{Name: "fifo-full-fork", Designed: []int{1, 2, 3, 4, 5, 6, 7, 8}, NB: 4, MaxLoss: 1, LossTotal: 3, ProcNet: full, Order: "fifo", AllowFork: true, Fetch: "before", Sample: 1200, Workers: 8, TimeoutS: 3000},
+		{Name: "any-full", Designed: []int{2, 6, 7, 8}, NB: 4, MaxLoss: 1, LossTotal: 3, ProcNet: full, Order: "any", Fetch: "before", Sample: 500, Workers: 8, TimeoutS: 3000},
+		{Name: "any-p2-fork", Designed: []int{1, 2, 3, 4, 5, 6, 7, 8}, NB: 4, MaxLoss: 1, LossTotal: 3, ProcNet: 2, Order: "any", AllowFork: true, Fetch: "before", Sample: 700, Workers: 8, TimeoutS: 3000},
+		{Name: "seq-seeded", UniIdx: seededUnis(c.Seed, 1, 60), NB: 5, MaxLoss: 1, LossTotal: 3, ProcNet: 0, Order: "fifo", Fetch: "before", Sample: 900, Workers: 8, TimeoutS: 3000},
+		{Name: "p1-seeded", UniIdx: seededUnis(c.Seed, 2, 10), NB: 4, MaxLoss: 1, LossTotal: 3, ProcNet: 1, Order: "fifo", Fetch: "before", Sample: 400, Workers: 8, TimeoutS: 3000},
 	}
 }
 
@@ -369,7 +373,7 @@ func Check(c *core.Ctx) int {
 	defer restore()
 	par, replayWorkers := 3, 5
 	if c.Thorough() {
-		par, replayWorkers = 2, 8
+		par, replayWorkers = 1, 10
 	}
 	sem := make(chan struct{}, par)
 	var wg sync.WaitGroup
@@ -415,7 +419,7 @@ func Check(c *core.Ctx) int {
 				r := f.run
 				path := c.WriteReplay(fmt.Sprintf("svce2e-%s-%d", p.Name, reported), ReplayFile{Prop: c.Prop, Stage: "svce2e", Seed: r.Seed, Plan: p, UI: r.UI, U: r.U,
 					Lists: r.Lists, Beh: r.Beh, Monitor: f.Monitor, Line: f.Line})
-				c.Violation(path, fmt.Sprintf("monitor %s failed in the composed run plan %s, universe %d: %s\n  line: %s", f.Monitor, p.Name, r.UI, r.Beh.text(), brief(f.Line)))
+				c.Violation(path, fmt.Sprintf("monitor %s failed in the composed run plan %s, universe %d (%s): %s\n  line: %s", f.Monitor, p.Name, r.UI, r.U.Name, r.Beh.text(), brief(f.Line)))
 				reported++
 			}
 		}
@@ -447,7 +451,7 @@ func Check(c *core.Ctx) int {
 	sort.Strings(ms)
 	for _, m := range ms {
 		f := obsExample[m]
-		fmt.Printf("OBSERVATION svce2e: %s on %d lines: %s\n  e.g. universe %d: %s\n", m, obsCount[m], observationText[m], f.run.UI, f.run.Beh.text())
+		fmt.Printf("OBSERVATION svce2e: %s on %d lines: %s\n  e.g. universe %s: %s\n", m, obsCount[m], observationText[m], f.run.U.Name, f.run.Beh.text())
 	}
 	if err := mergeEvidence(c, ps, outs, violations, d6seen, obsCount); err != nil {
 		fmt.Fprintln(os.Stderr, "svce2e evidence:", err)
